@@ -760,6 +760,30 @@ func (r *Run) listValueAssertOK(site panicSite) (string, bool) {
 		}
 	}
 	collect(root)
+	// a helper at package level that is handed the element (a closure moved out of its function): the lists it can be
+	// given are those of its package
+	hasInsert := func(fs []*ssa.Function) bool {
+		for _, f := range fs {
+			for _, b := range f.Blocks {
+				for _, ins := range b.Instrs {
+					if c, ok := ins.(*ssa.Call); ok {
+						if sc := c.Common().StaticCallee(); sc != nil && sc.Pkg != nil && sc.Pkg.Pkg.Path() == "container/list" && strings.HasPrefix(sc.Name(), "Push") {
+							return true
+						}
+					}
+				}
+			}
+		}
+		return false
+	}
+	if !hasInsert(fns) && root.Pkg != nil {
+		fns = nil
+		for _, m := range root.Pkg.Members {
+			if h, isF := m.(*ssa.Function); isF {
+				collect(h)
+			}
+		}
+	}
 	n := 0
 	for _, f := range fns {
 		for _, b := range f.Blocks {
